@@ -389,6 +389,71 @@ def behaviour_sample(seed, n, rdir):
     return len(pick), compared, bad
 
 
+_TOK = re.compile(r"[A-Za-z_][A-Za-z0-9_]*|0[xX][0-9a-fA-F]+[uUlL]*|\d+\.?\d*(?:[eE][-+]?\d+)?[uUlLfF]*|\"(?:\\.|[^\"\\])*\"|'(?:\\.|[^'\\])*'|[^\sA-Za-z0-9_]")
+
+
+def c_tokens(txt):
+    """C tokens of a generated file, without the braces of bare compound statements (pretty printing wraps wasm blocks in them)."""
+    out, st, last = [], [], None
+    for x in _TOK.findall(txt):
+        if x == "{":
+            bare = last in (";", "{", "}", ":")
+            st.append(bare)
+            if not bare:
+                out.append(x)
+        elif x == "}":
+            bare = st.pop() if st else False
+            if not bare:
+                out.append(x)
+        else:
+            out.append(x)
+        last = x
+    return out
+
+
+def pretty_token_sample(cdir, rdir, limit=None):
+    """Auxiliary (schedule-free): -p only changes layout. For every corpus and spec module the pretty and the compact output
+    (single file, and split with -f 3) must consist of the same C tokens."""
+    from concurrent.futures import ThreadPoolExecutor
+    xl, _ = build_translator_plain()
+    mods = []
+    for lst in ("corpus.txt", "sweep.txt"):
+        with open(os.path.join(cdir, lst)) as f:
+            for line in f:
+                w = line.split()
+                if w and w[0] not in mods and w[0] != "m905.wasm":
+                    mods.append(w[0])
+    if limit:
+        mods = mods[:limit]
+    def work(m):
+        res = []
+        for base in ([], ["-f", "3"]):
+            files = {}
+            for tag, opts in (("c", base), ("p", base + ["-p"])):
+                wd = os.path.join(rdir, "tok-%s-%s%d" % (safe_name(m), tag, len(base)))
+                shutil.rmtree(wd, ignore_errors=True)
+                os.makedirs(wd)
+                r = subprocess.run([xl] + opts + [os.path.join(cdir, m), "x.c"], cwd=wd, stdout=subprocess.PIPE, stderr=subprocess.PIPE, timeout=300)
+                files[tag] = (r.returncode, {fn: c_tokens(open(os.path.join(wd, fn), errors="replace").read()) for fn in sorted(os.listdir(wd))})
+                shutil.rmtree(wd, ignore_errors=True)
+            (rc_c, fc), (rc_p, fp) = files["c"], files["p"]
+            if rc_c != rc_p or sorted(fc) != sorted(fp):
+                res.append({"module": m, "opts": " ".join(base), "file": "-", "detail": "exit status / file set differ: %s %s vs %s %s" % (rc_c, sorted(fc), rc_p, sorted(fp))})
+                continue
+            for fn in fc:
+                if fc[fn] != fp[fn]:
+                    a, b = fc[fn], fp[fn]
+                    k = next((i for i in range(min(len(a), len(b))) if a[i] != b[i]), min(len(a), len(b)))
+                    res.append({"module": m, "opts": " ".join(base), "file": fn, "detail": "token %d: compact ...%s... pretty ...%s..." % (k, " ".join(a[max(0, k - 8):k + 8]), " ".join(b[max(0, k - 8):k + 8]))})
+                    break
+        return res
+    bad = []
+    with ThreadPoolExecutor(max_workers=NCPU) as ex:
+        for r in ex.map(work, mods):
+            bad += r
+    return len(mods), bad
+
+
 def variant_sample(seed, exe, cdir, n, rdir):
     """Auxiliary: the canonical output of sampled groups must be byte-identical across translator build
     configurations (default / without pthreads / bundled getopt+dirname+basename+strdup)."""
@@ -498,6 +563,12 @@ def check(prop, tier, seed, replay=None):
         aux = {"canonical_outputs_compiled": done, "compile_failures": len(bad)}
         nm, compared, bbad = behaviour_sample(seed, 6 if tier == "quick" else 80, rdir)
         aux.update({"behaviour_modules": nm, "behaviour_variant_comparisons": compared, "behaviour_failures": len(bbad), "behaviour_variants": [v for v, _ in VARIANT_OPTS]})
+        ntok, tbad = pretty_token_sample(cdir, rdir)
+        aux.update({"pretty_vs_compact_modules_token_compared": ntok, "pretty_vs_compact_token_mismatches": len(tbad)})
+        for b in tbad[:6]:
+            cls = "header" if b["file"].endswith(".h") else ("implementation-file" if re.fullmatch(r"[sd]\d{10}\.c", b["file"]) else "main-file")
+            bbad.append({"module": b["module"][:-5] if b["module"].endswith(".wasm") else b["module"], "variant": "-p-tokens:" + cls, "class": "pretty-output-differs-in-tokens",
+                         "error": "%s (%s) %s: %s" % (b["module"], b["opts"] or "single file", b["file"], b["detail"])})
         if tier == "thorough" or os.environ.get("VERIF_VARIANTS"):
             vc, vbad = variant_sample(seed, exe, cdir, 24, rdir)
             aux.update({"build_variant_groups_compared": vc, "build_variant_mismatches": len(vbad)})
